@@ -1,8 +1,13 @@
 import SaphyrModel.Parser2
+import SaphyrModel.Proofs.TokTree
 /-! # C03 — Block and flow structure parses to the denoted tree (parser-level component theorems)
 
 The structural content of C03 at full strength (`parse (render ℓ t) = flatten t` for every layout)
-is not proved. Proved here, for every parser state: nodes the syntax leaves out are delivered as
+is not proved end to end: the scanner half (characters → tokens for every layout) rests on the
+correspondence and the renderer oracle. The parser half **is** proved, for every tree:
+`tokens_parse_to_tree` / `node_tokens_parse` say that the token language of nested block and flow
+collections (any depth, any mixture of block-in-block, flow-in-block, flow-in-flow) is parsed to
+exactly the events the tree denotes. Also proved, for every parser state: nodes the syntax leaves out are delivered as
 the null scalar `~`, and the single-pair flow-mapping forms with an explicit empty key
 (`[ ? : b ]`, `[ ? ]`, `[ ? , a ]`) deliver `~` for the key **without consuming** the token that
 follows — which is what makes the value state see its `:` / `,` / `]`. -/
@@ -39,5 +44,34 @@ theorem block_value_omitted (p : PState) (t t2 : Token) (rest : List Token) (hp 
   unfold blockMappingValue
   simp only [peekTok, hp, Bind.bind, ht, skipTok, List.tail_cons]
   rcases h2 with h | h | h <;> simp [h]
+
+open TokTree in
+/-- **Every tree's tokens parse to that tree (whole stream).** For every well-formed token tree — block
+    sequences and mappings, flow sequences and mappings, scalars of every style, nested to any depth,
+    with arbitrary spans on every token — a fresh parser over the one-document stream presenting it
+    emits StreamStart, DocumentStart, exactly the events the tree denotes (each collection's items and
+    pairs in order, properly bracketed), DocumentEnd, StreamEnd, without error or panic, consuming all
+    tokens. -/
+theorem tokens_parse_to_tree (t : TT) (hw : t.wf = true) (ss se : Span) (eof : Marker) (keep : Bool) :
+    ∃ sp pf, steps (t.events.length + 4) (PState.init (streamToks ss se t) none eof keep) =
+        .ok ((.streamStart, ss) :: (.documentStart false, sp) :: (t.events ++ [(.documentEnd, se), (.streamEnd, se)]), pf) ∧
+      pf.state = .end ∧ pf.toks = [] :=
+  stream_parses t hw ss se eof keep
+
+open TokTree in
+/-- the compositional form: wherever the state machine calls `parse_node` in front of a tree's tokens
+    (as a sequence entry, a key, a value, a document root), it emits that tree's events, returns to
+    the continuation state in front of the remaining tokens, and changes nothing else (no anchors,
+    no tags, no leftover state) — in block context for every tree, in flow context for flow trees -/
+theorem node_tokens_parse (t : TT) (hw : t.wf = true) (b : Bool) (hb : b = true ∨ t.flowOnly = true) :
+    Parses t b := TT.parses t hw b hb
+
+open TokTree in
+/-- non-vacuity: `- [a, {k: v}]`-shaped tokens are a well-formed tree with 9 events -/
+example :
+    let sp : Span := ⟨⟨0, 1, 0⟩, ⟨0, 1, 0⟩⟩
+    let t : TT := .blockSeq sp sp (.cons sp (.flowSeq sp sp (.cons sp (.scalar sp .plain ['a'])
+      (.cons sp (.flowMap sp sp (.cons sp sp (.scalar sp .plain ['k']) sp (.scalar sp .plain ['v']) .nil)) .nil))) .nil)
+    t.wf = true ∧ t.events.length = 9 ∧ t.toks.length = 13 := by decide
 
 end SaphyrModel.C03
